@@ -138,12 +138,15 @@ ChunkSeq(f)      == Sel(f.recs, LAMBDA r : r.k = "Chunk")
 ChunkIdxSeq(f)   == Sel(SummaryRecs(f), LAMBDA r : r.k = "ChunkIndex")
 ChunkPosSeq(f)   == LET ix == KindIdx(f, "Chunk") IN SetToSortSeq(ix, <)
 
+(* each chunk index record designates exactly one chunk (found by its start offset), every chunk is designated exactly
+   once; the order of the records in the summary is not prescribed *)
 ChunkIndexExact(f, cfg) ==
   LET cps == ChunkPosSeq(f)  xs == ChunkIdxSeq(f) IN
   IF cfg.skipChunkIdx THEN xs = <<>>
   ELSE /\ Len(xs) = Len(cps)
-       /\ \A n \in DOMAIN xs :
-            LET c == f.recs[cps[n]]  x == xs[n]  run == MsgIndexRun(f, cps[n]) IN
+       /\ \A n \in DOMAIN cps : Cardinality({m \in DOMAIN xs : xs[m].cstart = f.recs[cps[n]].pos}) = 1
+       /\ \A m \in DOMAIN xs : \E n \in DOMAIN cps :
+            LET c == f.recs[cps[n]]  x == xs[m]  run == MsgIndexRun(f, cps[n]) IN
             /\ x.cstart = c.pos /\ x.clen = c.len /\ x.start = c.start /\ x.end = c.end
             /\ x.comp = c.comp /\ x.csize = c.csize /\ x.usize = c.usize
             /\ {<<x.offs[y].ch, x.offs[y].off>> : y \in DOMAIN x.offs} = {<<run[y].ch, run[y].pos>> : y \in DOMAIN run}
@@ -156,7 +159,8 @@ AttIndexExact(f, cfg) ==
   LET as == AttSeq(f)  xs == AttIdxSeq(f) IN
   IF cfg.skipAttIdx THEN xs = <<>>
   ELSE /\ Len(xs) = Len(as)
-       /\ \A n \in DOMAIN xs : LET a == as[n]  x == xs[n] IN
+       /\ \A n \in DOMAIN as : Cardinality({m \in DOMAIN xs : xs[m].offset = as[n].pos}) = 1
+       /\ \A m \in DOMAIN xs : \E n \in DOMAIN as : LET a == as[n]  x == xs[m] IN
             /\ x.offset = a.pos /\ x.length = a.len /\ x.log = a.log /\ x.create = a.create
             /\ x.dsize = a.dsize /\ x.name = a.name /\ x.media = a.media
 
@@ -166,7 +170,8 @@ MdIndexExact(f, cfg) ==
   LET ms == MdSeq(f)  xs == MdIdxSeq(f) IN
   IF cfg.skipMdIdx THEN xs = <<>>
   ELSE /\ Len(xs) = Len(ms)
-       /\ \A n \in DOMAIN xs : xs[n].offset = ms[n].pos /\ xs[n].length = ms[n].len /\ xs[n].name = ms[n].name
+       /\ \A n \in DOMAIN ms : Cardinality({m \in DOMAIN xs : xs[m].offset = ms[n].pos}) = 1
+       /\ \A m \in DOMAIN xs : \E n \in DOMAIN ms : xs[m].offset = ms[n].pos /\ xs[m].length = ms[n].len /\ xs[m].name = ms[n].name
 
 (* groups of the summary section: <<kind, first position, total length>> *)
 RECURSIVE GroupsOf(_)
@@ -177,9 +182,10 @@ GroupsOf(s) ==
        IN <<[op |-> k, gstart |-> s[1].pos, glen |-> Sum([i \in 1 .. n |-> s[i].len])]>> \o GroupsOf(SubSeq(s, n + 1, Len(s)))
 
 SummaryOffsetsExact(f, cfg) ==
-  LET so == SORecs(f) IN
+  LET so == SORecs(f)  gs == GroupsOf(SummaryRecs(f)) IN
   IF cfg.skipSumOffsets THEN so = <<>>
-  ELSE [i \in DOMAIN so |-> [op |-> so[i].op, gstart |-> so[i].gstart, glen |-> so[i].glen]] = GroupsOf(SummaryRecs(f))
+  ELSE /\ Len(so) = Len(gs)                  \* one record per group, designating exactly its bytes; their order is not prescribed
+       /\ {[op |-> so[i].op, gstart |-> so[i].gstart, glen |-> so[i].glen] : i \in DOMAIN so} = {gs[i] : i \in DOMAIN gs}
 
 FooterExact(f) ==
   /\ Footer(f).ss  = IF SummaryRecs(f) = <<>> THEN 0 ELSE SummaryRecs(f)[1].pos
@@ -200,10 +206,11 @@ FirstById(s) == Sel([i \in DOMAIN s |-> [r |-> s[i], first |-> ~\E j \in 1 .. i 
 SummaryRepeatsOf(f, cfg, ds, dc) ==
   LET ss == Sel(SummaryRecs(f), LAMBDA r : r.k = "Schema")
       sc == Sel(SummaryRecs(f), LAMBDA r : r.k = "Channel")
-  IN /\ IF cfg.skipRepSchemas THEN ss = <<>>
-        ELSE Len(ss) = Len(ds) /\ \A i \in DOMAIN ss : SameSchema(ss[i], ds[i].r)
+  IN \* every registered definition is repeated exactly once (the order of the repeats is not prescribed)
+     /\ IF cfg.skipRepSchemas THEN ss = <<>>
+        ELSE Len(ss) = Len(ds) /\ \A i \in DOMAIN ds : Cardinality({j \in DOMAIN ss : SameSchema(ss[j], ds[i].r)}) = 1
      /\ IF cfg.skipRepChannels THEN sc = <<>>
-        ELSE Len(sc) = Len(dc) /\ \A i \in DOMAIN sc : SameChannel(sc[i], dc[i].r)
+        ELSE Len(sc) = Len(dc) /\ \A i \in DOMAIN dc : Cardinality({j \in DOMAIN sc : SameChannel(sc[j], dc[i].r)}) = 1
 DataDefs(f, kind) == FirstById(Sel(Flat(f), LAMBDA r : r.k = kind))
 SummaryRepeatsExact(f, cfg) == SummaryRepeatsOf(f, cfg, DataDefs(f, "Schema"), DataDefs(f, "Channel"))
 
@@ -264,7 +271,12 @@ StatsNames(st, content, nchunks) ==
 FileContent(f) == [data |-> Flat(f), atts |-> AttSeq(f), mds |-> MdSeq(f)]
 
 SameContentNames(a, b) ==
-  << <<"DataStream",  Len(a.data) = Len(b.data) /\ \A i \in DOMAIN a.data : SameData(a.data[i], b.data[i])>>,
+  << \* the messages in order with every field; the schema / channel records as sets (their placement is judged by DefinedBeforeUse)
+     <<"DataStream",  LET am == Sel(a.data, LAMBDA r : r.k = "Message")  bm == Sel(b.data, LAMBDA r : r.k = "Message")
+                          ad == Sel(a.data, LAMBDA r : r.k # "Message")  bd == Sel(b.data, LAMBDA r : r.k # "Message") IN
+                      /\ Len(am) = Len(bm) /\ \A i \in DOMAIN am : SameMessage(am[i], bm[i])
+                      /\ \A i \in DOMAIN ad : \E j \in DOMAIN bd : SameData(ad[i], bd[j])
+                      /\ \A j \in DOMAIN bd : \E i \in DOMAIN ad : SameData(ad[i], bd[j])>>,
      <<"Attachments", Len(a.atts) = Len(b.atts) /\ \A i \in DOMAIN a.atts : SameAtt(a.atts[i], b.atts[i])>>,
      <<"Metadata",    Len(a.mds) = Len(b.mds) /\ \A i \in DOMAIN a.mds : SameMd(a.mds[i], b.mds[i])>> >>
 
